@@ -233,47 +233,54 @@ def census(ctx, chk, g, reach, label):
 _AST_FN_CACHE = {}
 
 
+def ast_fn_of(ctx, mirfn):
+    """the syntax tree of the function a MIR body belongs to (closures: their parent function); None if it cannot be identified"""
+    name = mirfn.get("name")
+    if mirfn.get("kind") == "Closure" or not name:
+        m_ = re.search(r"::(\w+)::\{closure", mirfn["path"])
+        name = m_.group(1) if m_ else None
+    if not name:
+        return None
+    key = id(ctx)
+    if key not in _AST_FN_CACHE:
+        idx = {}
+        for cr in (ctx.rspirv, ctx.dis):
+            for m in cr.modules():
+                for it in cr.items(m):
+                    if it["kind"] == "fn":
+                        idx.setdefault(it["name"], []).append(it)
+                    elif it["kind"] == "impl":
+                        from ..tree import strip_generics
+                        st = strip_generics(it["self_ty"]).split("::")[-1]
+                        for x in it["items"]:
+                            if x["kind"] == "fn":
+                                idx.setdefault(x["name"], []).append(x)
+                                idx.setdefault((st, x["name"]), []).append(x)
+        _AST_FN_CACHE[key] = idx
+    owner = None
+    mo = re.search(r"(\w+)(?:::<[^>]*>)?::%s(?:::\{closure.*)?$" % re.escape(name), mirfn["path"])
+    if mo:
+        owner = mo.group(1)
+    mt = re.search(r"<([\w:]+?)(?:<[^>]*>)? as [^>]+>::%s(?:::\{closure.*)?$" % re.escape(name), mirfn["path"])
+    if mt:
+        owner = mt.group(1).split("::")[-1]        # <Type as Trait>::method
+    cands = _AST_FN_CACHE[key].get((owner, name), []) if owner else []
+    if len(cands) != 1:
+        cands = _AST_FN_CACHE[key].get(name, [])
+    return cands[0] if len(cands) == 1 else None
+
+
 def range_safe(ctx, mirfn, kind):
     """discharge a compiler-inserted overflow check when every arithmetic expression of that kind in the function has operands
     that are small by construction (interval analysis over the syntax tree: literals, enumerate indices over chunk remainders, ..)"""
     from . import rangex
-    name = mirfn.get("name")
-    if mirfn.get("kind") == "Closure" or not name:
-        # a closure is analysed as part of its parent function's syntax tree
-        import re as _re
-        m_ = _re.search(r"::(\w+)::\{closure", mirfn["path"])
-        name = m_.group(1) if m_ else None
-    if not name:
-        return False
-    key = id(ctx)
-    if key not in _AST_FN_CACHE:
-        idx = {}
-        for m in ctx.rspirv.modules():
-            for it in ctx.rspirv.items(m):
-                if it["kind"] == "fn":
-                    idx.setdefault(it["name"], []).append(it)
-                elif it["kind"] == "impl":
-                    from ..tree import strip_generics
-                    st = strip_generics(it["self_ty"]).split("::")[-1]
-                    for x in it["items"]:
-                        if x["kind"] == "fn":
-                            idx.setdefault(x["name"], []).append(x)
-                            idx.setdefault((st, x["name"]), []).append(x)
-        _AST_FN_CACHE[key] = idx
-    import re as _re2
-    owner = None
-    mo = _re2.search(r"(\w+)(?:::<[^>]*>)?::%s(?:::\{closure.*)?$" % _re2.escape(name), mirfn["path"])
-    if mo:
-        owner = mo.group(1)
-    cands = _AST_FN_CACHE[key].get((owner, name), []) if owner else []
-    if len(cands) != 1:
-        cands = _AST_FN_CACHE[key].get(name, [])
-    if len(cands) != 1:
+    f = ast_fn_of(ctx, mirfn)
+    if f is None:
         return False
     try:
         if kind == "BoundsCheck":
-            return rangex.safe_indexing(cands[0])
-        return rangex.safe_ops(cands[0], kind)
+            return rangex.safe_indexing(f)
+        return rangex.safe_ops(f, kind)
     except Exception:
         return False
 
@@ -281,19 +288,20 @@ def range_safe(ctx, mirfn, kind):
 def capacity_safe(ctx, mirfn):
     """every capacity request in the function is for a number of elements derived from the length of an existing collection (or a small
     constant): `capacity overflow` would need that collection to exceed memory.  A capacity taken from an argument or a decoded word is not."""
-    name = mirfn.get("name")
-    if not name:
+    f_ = ast_fn_of(ctx, mirfn)
+    if f_ is None:
         return False
-    range_safe(ctx, mirfn, "Overflow(Add)")      # fills the function index
-    idx = _AST_FN_CACHE[id(ctx)]
-    cands = idx.get(name, [])
-    if len(cands) != 1:
-        return False
+    cands = [f_]
+
+    from . import rangex
+    env_, lens_ = rangex.intervals(cands[0])
 
     def sized(e):
         e = unblock(e)
         if int_of(e) is not None:
             return int_of(e) < 2 ** 32
+        if path_of(e) is not None and path_of(e) in env_ and env_[path_of(e)][1] < 2 ** 32:
+            return True              # a local with a provably small range
         if e[0] == "mcall" and e[2] in ("len", "count") and not e[3]:
             return True
         if e[0] == "mcall" and e[2] in ("min", "saturating_sub", "checked_sub") and e[3]:
@@ -513,6 +521,10 @@ def discharge(ctx, chk, g, with_main=False):
         for n in walk(f["body"]):
             if n[0] == "binary" and n[1] in ("<<", ">>"):
                 v = int_of(n[3])
+                if v is None and path_of(n[3]) is not None:
+                    from ..symeval import Hooks as _H
+                    cv_ = _H().resolve_const(path_of(n[3]))
+                    v = cv_ if isinstance(cv_, int) else None
                 if v is None or not (0 <= v < 32):
                     bad.append(show(n))
             if n[0] == "binary" and n[1] in ("/", "%"):
